@@ -148,6 +148,14 @@ def receiveResult (e : End) (pipeErr : Option String) : Err :=
   | .tableDead => fallback
   | .chClosed => fallback
 
+/-- the subscription table around one `pipe.Receive` call: the subscription is registered BEFORE the
+    (P|S)SUBSCRIBE command is sent, `during` is whatever happens on the connection while the call
+    runs (pushes for other or the same channels, other Receive calls, …), and `defer cancel()` removes
+    the registration when the call returns — on EVERY exit path (`End`), also when the command
+    itself failed -/
+def receiveCall (t : Table) (chans : List String) (hasFn : Bool) (during : List Op) (_exit : End) : Table :=
+  step (run (step t (.subscribe chans hasFn)) during) (.cancel (t.cnt + 1))
+
 /-! ### the channel returned by SetPubSubHooks -/
 
 /-- one `chan error` handed out by SetPubSubHooks -/
